@@ -121,10 +121,14 @@ Theorem c16_count_bounded_via_accept : forall m r ls t, 0 <= m -> run (init m 0 
 Proof. exact count_bounded_via_accept. Qed.
 
 (* UpdateHandler: the exit callback goes to the handler in charge at the moment of the exit (s.rh, else the manager's),
-   once; when every UpdateHandler came before anything that can end the session, that is the handler installed last *)
-Theorem c16_exit_picks_current_handler : forall s s' d a, SInv s -> sess_step s a = Some (s', d) -> d = true ->
-  exit_h (hx s') = hid (hx s).
-Proof. exact exit_picks_current_handler. Qed.
+   once; reading s.rh is a step of its own (Pick) since the callback may run for a while before the rest of quit; when
+   every UpdateHandler came before anything that can end the session, the handler told is the one installed last *)
+Theorem c16_pick_records_current_handler : forall s s' d, sess_step s Pick = Some (s', d) ->
+  exit_h (hx s') = hid (hx s) /\ picked (hx s') = true /\ d = false /\ exited s' = exited s /\ qclosed s' = qclosed s /\ copen s' = copen s.
+Proof. exact pick_records_current_handler. Qed.
+Theorem c16_quit_keeps_the_pick : forall s s1 d, quit s = (s1, d) -> d = true ->
+  exit_h (hx s1) = (if picked (hx s) then exit_h (hx s) else hid (hx s)).
+Proof. exact quit_keeps_the_pick. Qed.
 Theorem c16_exit_handler : forall m c0 t i s, reachable m c0 t -> nth_error (ss t) i = Some s -> started s = true ->
   amb (hx s) = false -> exited s = true -> exit_h (hx s) = hid (hx s).
 Proof. exact exit_handler. Qed.
@@ -204,7 +208,8 @@ Print Assumptions c16_inbox_in_order.
 Print Assumptions c16_no_send_after_exit.
 Print Assumptions c16_refines_accept_machine.
 Print Assumptions c16_count_bounded_via_accept.
-Print Assumptions c16_exit_picks_current_handler.
+Print Assumptions c16_pick_records_current_handler.
+Print Assumptions c16_quit_keeps_the_pick.
 Print Assumptions c16_exit_handler.
 Print Assumptions c16_temporary_error_below_limit.
 Print Assumptions c16_temporary_error_at_limit.
